@@ -62,6 +62,7 @@ class Family:
         strmodel.install_more(self.models)
         textmodels.install(self.models)
         self.ex = Exec(self.prog, self.models, max_steps=500000)
+        self.ex.use_inc = False
         M = self.prog.methods
         self.f = {
             "radix": M.get(("IntNumber", None, "radix")), "value_u128": M.get(("IntNumber", None, "value_u128")),
